@@ -273,3 +273,54 @@ func (c *Ctx) oneBitSigned() {
 func isIntParamNamedWidth(f *ssa.Function, v ssa.Value) bool {
 	return len(f.Params) > 0 && ssa.Value(f.Params[len(f.Params)-1]) == v
 }
+
+// capacityCountGuards: a guard that refuses a write because the cell would overflow compares a
+// COUNT (bits already there + bits to add) with the capacity: it must refuse for count > capacity,
+// not >=, otherwise a write that fills the cell exactly (1023 bits, the 4th reference) is refused.
+// (checkRange compares an INDEX with the capacity; that one is >= and has its own rule.)
+func (c *Ctx) capacityCountGuards() {
+	const R = "E8.capacity"
+	for _, f := range c.moduleFuncs("boc") {
+		for _, b := range f.Blocks {
+			iff := lastIf(b)
+			if iff == nil {
+				continue
+			}
+			bo, ok := iff.Cond.(*ssa.BinOp)
+			if !ok {
+				continue
+			}
+			failIdx := -1
+			for k, s := range b.Succs {
+				if returnsSentinel(s, "ErrBitStingOverflow") || returnsSentinel(s, "ErrCellRefsOverflow") {
+					failIdx = k
+				}
+			}
+			if failIdx < 0 {
+				continue
+			}
+			isSum := func(v ssa.Value) bool {
+				a, ok := stripConv(v).(*ssa.BinOp)
+				if !ok || a.Op != token.ADD {
+					return false
+				}
+				// size + added: two quantities, not a counter stepped by a constant
+				_, kx := a.X.(*ssa.Const)
+				_, ky := a.Y.(*ssa.Const)
+				return !kx && !ky
+			}
+			op := bo.Op
+			switch {
+			case isSum(bo.X) && !isSum(bo.Y):
+			case isSum(bo.Y) && !isSum(bo.X):
+				op = map[token.Token]token.Token{token.LSS: token.GTR, token.GTR: token.LSS, token.LEQ: token.GEQ, token.GEQ: token.LEQ}[op]
+			default:
+				continue // an index-style test
+			}
+			if failIdx == 1 {
+				op = map[token.Token]token.Token{token.LSS: token.GEQ, token.GTR: token.LEQ, token.LEQ: token.GTR, token.GEQ: token.LSS}[op]
+			}
+			c.check(op == token.GTR, R, fnName(f)+": overflow is 'count > capacity'", bo.Pos(), "refuses for size + added > capacity", fmt.Sprintf("%s refuses a write when size + added %s capacity; a write that fills the cell exactly fits (the limit is inclusive): it must refuse only for size + added > capacity", fnName(f), op))
+		}
+	}
+}
